@@ -160,6 +160,17 @@ def step (s : St) (ws : List String) : St × String :=
         let hx := fun (l : List Char) => toHex (l.map fun c => UInt8.ofNat c.toNat)
         ({ g, T, ex := none },
          s!"tparse {hx tg.name} R={sepBy "," (N.rules.map hx)} W={sepBy "," (N.words.map hx)} I={tg.imports.length} | {showTable T}")
+  | "print" :: toks =>
+    -- the Lean pretty-printer on a generated grammar (conventional spellings w<n>, <r<n>>, tags {t})
+    match pGrammar toks with
+    | some g =>
+      let tg := textG g
+      let txt := printG tg
+      let back := match parseText txt with
+        | some tg' => toksG tg' == toksG tg
+        | none => false
+      (s, s!"printed {showB tg.ok} {showB back} {toHex (txt.map fun c => UInt8.ofNat c.toNat)}")
+    | none => (s, "bad-grammar")
   | ["lex", hex] =>
     match parseHex hex with
     | none => (s, "bad-op")
